@@ -176,7 +176,7 @@ _add(
          "one neuron step judged by the model-free invariants I1-I6 and (float64) by the one-step model from the "
          "observed pre-state (spike set, voltage, refractory time, and the batch-averaged adaptation that sets the next step's threshold / current). distinct = (class, dtype, dt, refractory ratio, drive, lock, adapt, spiking/quiet, batch).",
     required=["steps_checked", "spikes_seen", "reset_checks", "silence_window_steps", "adaptation_freeze_checks", "adaptation_law_checks",
-              "model_steps_checked", "exact_ties_checked", "mid_trajectory_clears", "adaptation_function_checks"],
+              "model_steps_checked", "exact_ties_checked", "mid_trajectory_clears", "adaptation_function_checks", "exact_ties_checked.linear_models"],
     floor={"quick": 400, "thorough": 1500},
     text="Held on every trajectory explored (apart from the listed finding): every forward of the real neuron classes "
          "is checked for non-negative refractory time, spike attribute == returned spikes, no spike while refractory, "
@@ -197,7 +197,7 @@ _add(
          "contracted with the weight with the forward output; lateral diagonal invariant after each of 4-14 random "
          "mutating operations (weight/delay assignment, updater application, clamp / normalise hooks, forward). "
          "distinct = geometry / shape-class abstractions.",
-    required=["forward_checks", "conv_geometries", "helper_checks", "lateral_diagonal_checks", "delayed_linear_cases", "initialiser_built_connections", "delayed_conv_cases", "bias_layout_checks"],
+    required=["forward_checks", "conv_geometries", "helper_checks", "lateral_diagonal_checks", "delayed_linear_cases", "initialiser_built_connections", "delayed_conv_cases", "bias_layout_checks", "conv_weights_assigned_in_other_memory_layouts", "linear_weights_assigned_in_other_memory_layouts"],
     floor={"quick": 150, "thorough": 3000},
     exhaustive={"thorough": ["conv2d: all square inputs 3..9, C,F in 1..3, kernels 1..3 x 1..3, stride 1..3, padding 0..2, dilation 1..2 with non-empty output"]},
     text="Held on every input and geometry explored: the real connections (float64) are driven with arbitrary real "
@@ -298,7 +298,7 @@ _add(
          "bounding functions check the routing; plus linear homeostasis on weight / bias / delay with plasticity of both "
          "signs and observed rates above and below target (direction of the applied change). One evaluation = one "
          "trainer step judged; distinct = (trainer, cell type, sign mode, reduction, reward kind, delay mode, ...).",
-    required=["parts_checked", "trainer_steps_checked", "routing_steps_checked", "homeostasis_steps_checked"],
+    required=["parts_checked", "trainer_steps_checked", "routing_steps_checked", "homeostasis_steps_checked", "three_factor_steps_with_negative_scale.tensor_signal", "three_factor_steps_with_negative_scale.scalar_signal"],
     floor={"quick": 60, "thorough": 200},
     text="Held on every history explored (apart from the listed findings): every tensor a real trainer assigns to an "
          "Accumulator is checked to be element-wise non-negative at the moment of assignment, potentiation minus "
